@@ -35,7 +35,8 @@ Judge(ln) ==
   ELSE (IF ln.watches = 4 THEN {} ELSE {"X_WatchesNotEstablished"})
        \cup (IF ln.cancelled \/ ln.got >= MinNotes(ln.writes) THEN {} ELSE {"C19_Notified"})
        \cup (IF ln.got <= MaxNotes(ln.writes) THEN {} ELSE {"C19_NoneForOthers"})
-       \cup (IF ln.closed THEN {} ELSE {"C19_StreamEnds"})
+       \* the stream ends - and the process is still there (a panic in the watcher's goroutines takes it down)
+       \cup (IF ln.closed /\ ~ln.crashed THEN {} ELSE {"C19_StreamEnds"})
 
 ClassOf(ln) == IF ln.ev = "watcher" THEN (IF ln.cancelled THEN "cancelled-midway" ELSE IF ln.late THEN "late-consumer" ELSE "prompt-consumer") ELSE ln.ev
 Final(tr) == {}
